@@ -54,8 +54,8 @@ theorem C20_none_single (e1 i1 : Nat) (w : Word) (f1 : Score) (rest : List Node)
     withAffix (.bos :: wordNode e1 i1 w f1 :: rest) = none := by
   simp [withAffix, wordNode, isWordNode, hrest]
 
-/-- Confirming such a candidate queues the compound as a common noun for the updater, and (as the
-code stands) also records it in the user dictionary at once. -/
+/-- Confirming such a candidate queues the compound as a common noun for the updater (which records it in the user
+dictionary when it applies it — once, since fix c5e9959). -/
 theorem C20_confirm_queues (c : Cfg) (s : State) (sid : Nat) (cid : Nat) (now : Int) (sess : Session) (cand : Cand)
     (word reading : Str)
     (h : s.sessions.find? (·.sid == sid) = some sess) (hc : sess.cands[cid]? = some cand)
